@@ -135,7 +135,7 @@ def run(ctx):
             if key in seen:
                 continue
             seen.add(key)
-            span_terms.append("(mkspancase (%d, %d)%%nat (%d, %d)%%nat %d%%nat %s)" % (si[3], si[4], ei[5], ei[6], nlines, coq_list(loc["s"], coq_Z)))
+            span_terms.append("(mkspancase (%d, %d) (%d, %d) %d %s)" % (si[3], si[4], ei[5], ei[6], nlines, coq_list(loc["s"], coq_Z)))
             span_meta.append((c, loc))
         # ---- correspondence: comment attribution with extraComments
         lead, trail = first_claims(src, o["locs"]["2"])
@@ -160,10 +160,15 @@ def run(ctx):
     ctx.extra["locations_per_mode"] = nlocs
     ctx.sample({"source": bytes.fromhex(cases[-1]["text"])[:400].decode("utf8", "replace")})
     ctx.sample({"source": CORPUS[0].decode()})
-    if len(gap_terms) > ctx.budget(6000, 10 ** 9):
-        idx = sorted(rng.shuffle(list(range(len(gap_terms))))[:ctx.budget(6000, 10 ** 9)])
+    if len(gap_terms) > ctx.budget(3000, 10 ** 9):
+        idx = sorted(rng.shuffle(list(range(len(gap_terms))))[:ctx.budget(3000, 10 ** 9)])
         gap_terms, gap_meta = [gap_terms[i] for i in idx], [gap_meta[i] for i in idx]
-    mism, err = coq_eval_mismatches("cases_C23_span", HEADER, span_terms, "span_chk", shard_size=2000)
+    if len(span_terms) > ctx.budget(5000, 10 ** 9):
+        idx = sorted(rng.shuffle(list(range(len(span_terms))))[:ctx.budget(5000, 10 ** 9)])
+        span_terms, span_meta = [span_terms[i] for i in idx], [span_meta[i] for i in idx]
+    ctx.extra["span_cases"] = len(span_terms)
+    ctx.extra["extra_comments_gap_cases"] = len(gap_terms)
+    mism, err = coq_eval_mismatches("cases_C23_span", HEADER, span_terms, "span_chk", shard_size=3000)
     if err:
         raise RuntimeError(err)
     for i in mism:
